@@ -250,6 +250,7 @@ def isDigitRanges : List (Nat × Nat) := []
 def isAlphaNumericRanges : List (Nat × Nat) := []
 def deviceTypesAccepted : List (List UInt8) := []
 def permissionBytes : List (Nat × Nat) := []
+def hookNamesAccepted : List (List UInt8) := []
 def tableErrors : List String := ["tables not produced"]
 end Cdi.Generated
 """
